@@ -120,6 +120,25 @@ def param_multi_oracle(seed):
                     fails.append((f"parameters theta / alpha at call {call}: batches {th.tolist()} / {al.tolist()} are not in their own ranges [10, 11] / [-3, -2]", case)); break
         except Exception as ex:
             fails.append((f"several parameters with keys {'as a dictionary' if isinstance(keys, dict) else 'as one key'} raised {type(ex).__name__}: {str(ex)[:150]}", case))
+    # two loaders built from the SAME user_data / param_ranges dictionary objects (a training and a validation loader sharing a
+    # measured table): the caller's dictionaries are left as they were, and each loader draws theta in its own range
+    for method in ("uniform", "grid"):
+        case = {"what": "param_multi", "shared_dictionaries": True, "method": method, "seed": seed}
+        try:
+            ud = {"nu": jnp.asarray(table)}
+            r1, r2 = {"theta": (10.0, 11.0)}, {"theta": (-2.0, -1.0)}
+            g1 = jinns.data.DataGeneratorParameter(jax.random.PRNGKey(seed), n, b, r1, method, ud)
+            g2 = jinns.data.DataGeneratorParameter(jax.random.PRNGKey(seed + 1), n, b, r2, method, ud)
+            if set(ud) != {"nu"} or set(r1) != {"theta"} or set(r2) != {"theta"} or not np.array_equal(np.asarray(ud["nu"]).ravel(), table):
+                fails.append((f"building a parameter loader changed the caller's dictionaries (user_data keys now {sorted(ud)})", case))
+            for g, (lo, hi) in ((g1, r1["theta"]), (g2, r2["theta"])):
+                for call in range(3):
+                    g, bt = g.get_batch()
+                    th = np.asarray(bt["theta"]).ravel(); nu = np.asarray(bt["nu"]).ravel()
+                    if not (np.all((th >= lo) & (th <= hi)) and all(x in table for x in nu)):
+                        fails.append((f"two loaders sharing one user_data dictionary ({method}): theta batch {th.tolist()} is not in its own range [{lo}, {hi}] (or nu {nu.tolist()} not from the table)", case)); break
+        except Exception as ex:
+            fails.append((f"two loaders sharing one user_data dictionary raised {type(ex).__name__}: {str(ex)[:150]}", case))
     return fails
 
 
